@@ -98,6 +98,7 @@ def cmd_add(a):
         "confirmed": {"repo_head": head, "demo_clean_rc": rc0, "demo_patched_rc": rc1, "demo_patched_output": out1[-600:], "suite_with_patch": suite},
         "what_was_run": [f"demo.py on clean and patched scratch copies (PYTHONPATH)", "pytest of each touched package on the patched copy", f"python -m tqv.run {a.property} --tier {a.tier} with TQV_REPO=<patched copy>"],
         "check_result": chk,
+        "first_result": chk["status"],
     }
     (dst / "meta.json").write_text(json.dumps(meta, indent=1))
     return 0
